@@ -292,6 +292,7 @@ class C15(Prop):
     # ---------------------------------------------------------------- generation
     def gen_heap(self, rng, i):
         ops, shapes, groups = [], [], []
+        renames = [0]
 
         def spec():
             s = []
@@ -323,10 +324,10 @@ class C15(Prop):
                 create()
             elif r < 0.25:
                 ops.append(["copy", k]); shapes.append(list(sh)); groups.append(max(groups) + 1)
-            elif r < 0.33:
+            elif r < 0.33 and len(sh) >= 1:
                 perm = list(range(len(sh))); rng.shuffle(perm)
                 ops.append(["transpose", k, perm]); shapes.append([sh[p] for p in perm]); groups.append(groups[k])
-            elif r < 0.38:
+            elif r < 0.38 and len(sh) >= 1:
                 ops.append(["squeeze", k]); shapes.append([s for s in sh if s != 1]); groups.append(groups[k])
             elif r < 0.43 and len(sh) >= 1:
                 ops.append(["slice_all", k]); shapes.append(list(sh)); groups.append(groups[k])
@@ -355,7 +356,9 @@ class C15(Prop):
                 elif m == "set_label":
                     mm = ["set_label", d, rng.randrange(sh[d]), rng.randint(20, 40)]
                 elif m == "rename":
-                    mm = ["rename", d, rng.choice(["p", "q", "r"])]
+                    # a name no live array uses yet (duplicate dimension names make an array ill-formed: outside C15)
+                    renames[0] += 1
+                    mm = ["rename", d, "n%d" % renames[0]]
                 elif m == "set_attr":
                     mm = ["set_attr", rng.choice(["units", "hist", "new"]), "V%d" % rng.randint(0, 9)]
                 elif m == "append_attr":
